@@ -27,12 +27,12 @@ INPLACE = [
     "{t}[[0, -1]] = c2", "{t}[Mt] = y0", "{t}[1:] = {o}[:-1]", "{t}[...] = {o}", "{t}[0] = {o}[-1]",
     "{t} *= k", "{t} += y0", "{t} -= c1", "{t} /= k", "{t} **= 2", "{t} += {o}", "{t} *= yv",
     "mg.multiply({t}, k, out={t})", "mg.add({o}, c2, out={t})", "mg.exp({o}, out={t}, where=Mt)", "mg.multiply({o}, y0, out={t}, where=Mt)",
-    "mg.multiply({o}, y0, out={t}, where=Mb)", "mg.add({o}, c2, out={t}, where=Mb)",
+    "mg.multiply({o}, y0, out={t}, where=Mb)", "mg.add({o}, c2, out={t}, where=Mb)", "mg.multiply(k, c2, out={t})",
     "{t}.shape = (3, 2)", "{t}.shape = (6,)", "{t}.shape = (1, 6)",
 ]
 INPLACE_Q = ["{t}[...] = y0", "{t}[1:] = y0", "{t}[0] = c1", "{t}[:1] = c1", "{t}[[0, 0]] = y2", "{t}[Mt] = y0", "{t}[1:] = {o}[:-1]",
              "{t} *= k", "{t} += y0", "mg.multiply({o}, y0, out={t}, where=Mt)", "mg.multiply({o}, y0, out={t}, where=Mb)", "mg.add({o}, c2, out={t})",
-             "{t}.shape = (3, 2)"]
+             "mg.multiply(k, c2, out={t})", "{t}.shape = (3, 2)"]
 
 BASES = {"flat6": (6,), "mat23": (2, 3), "mat23F": (2, 3), "mat32F": (3, 2)}
 F_ORDERED = {"mat23F", "mat32F"}  # the base tensor owns NON C-ordered memory (its data is the transpose of a C-ordered array)
